@@ -52,6 +52,10 @@ structure Forest where
   secs : Sections := {}
   deriving Repr, Inhabited
 
+/-- a DWARF 5 type unit placed in `.debug_info` (DW_UT_type = 2, DW_UT_split_type = 6): the units a
+    DW_FORM_ref_sig8 value may designate besides those of `.debug_types` -/
+def UnitDesc.isTypeV5 (u : UnitDesc) : Bool := decide (5 ≤ u.version) && (u.utype == 2 || u.utype == 6)
+
 def UnitDesc.cfg (le : Bool) (u : UnitDesc) : DwarfCfg := ⟨le, if u.fmt64 then 64 else 32, u.asz, u.version⟩
 
 /-- the unit of `.debug_info` as C13's `InfoUnit` (header fields + the bytes behind the header) -/
